@@ -1,7 +1,8 @@
 CONSTANTS p = 19
  usq = 18
  r = 13
- tr = 7
+ trabs = 7
+ trneg = FALSE
  xabs = 1
  xneg = TRUE
  fam = "BN"
